@@ -175,6 +175,45 @@ func loadProgram(dir string, patterns []string) (*Prog, error) {
 
 // genSpecFor builds the specification file of package p.
 func genSpecFor(p *packages.Package, pc *PkgContracts) (string, error) {
+	return genSpecForX(p, pc, false)
+}
+
+// pkgImportNames: the import names used by the package's own files (path -> name).
+func pkgImportNames(p *packages.Package) map[string]string {
+	byPath := map[string]string{}
+	byName := map[string]string{}
+	for _, f := range p.Syntax {
+		fn := p.Fset.Position(f.Pos()).Filename
+		if strings.HasSuffix(fn, contractFileName) || strings.HasSuffix(fn, "zz_verif_spec_gen.go") {
+			continue
+		}
+		for _, im := range f.Imports {
+			path := strings.Trim(im.Path.Value, `"`)
+			name := ""
+			if im.Name != nil {
+				name = im.Name.Name
+				if name == "_" || name == "." {
+					continue
+				}
+			} else if ip := p.Imports[path]; ip != nil {
+				name = ip.Name
+			} else {
+				continue
+			}
+			if _, ok := byPath[path]; ok {
+				continue
+			}
+			if _, clash := byName[name]; clash {
+				continue
+			}
+			byPath[path] = name
+			byName[name] = path
+		}
+	}
+	return byPath
+}
+
+func genSpecForX(p *packages.Package, pc *PkgContracts, executable bool) (string, error) {
 	if pc.PkgName == "" {
 		pc.PkgName = p.Name
 	}
@@ -182,7 +221,7 @@ func genSpecFor(p *packages.Package, pc *PkgContracts) (string, error) {
 	byName := map[string]string{}
 	var imports []string
 	for _, f := range p.Syntax {
-		if strings.HasSuffix(p.Fset.Position(f.Pos()).Filename, contractFileName) {
+		if fn := p.Fset.Position(f.Pos()).Filename; strings.HasSuffix(fn, contractFileName) || strings.HasSuffix(fn, "zz_verif_spec_gen.go") {
 			continue
 		}
 		for _, im := range f.Imports {
@@ -282,10 +321,10 @@ func genSpecFor(p *packages.Package, pc *PkgContracts) (string, error) {
 		return out
 	}
 	// first pass to discover extra imports needed by local types
-	if _, err := pc.genSpecFile(imports, locals); err != nil {
+	if _, err := pc.genSpecFileX(imports, locals, executable); err != nil {
 		return "", err
 	}
-	return pc.genSpecFile(imports, locals)
+	return pc.genSpecFileX(imports, locals, executable)
 }
 
 func findDecl(p *packages.Package, fs *FuncSpec) *ast.FuncDecl {
